@@ -322,8 +322,8 @@ def run(chk):
         elif res.status == "crashed":
             chk.correspondence_broken("PSyAD crashed instead of refusing: " + what, {"src": src}, "refused", res.exc)
     # the compiled harness: real-only argument lists (valid on the pinned tree) and mixed ones
-    hgen_real = G.KGen(rng, real_only=True, allow_unsafe=False, cond_on_reals=False, shift=5)
-    hgen_mixed = G.KGen(rng, real_only=False, allow_unsafe=False, cond_on_reals=False, shift=5)
+    hgen_real = G.KGen(rng, real_only=True, allow_unsafe=False, cond_on_reals=False, shift=5, init_locals=True)
+    hgen_mixed = G.KGen(rng, real_only=False, allow_unsafe=False, cond_on_reals=False, shift=5, init_locals=True)
     k = -2
     while dist["harness_run"] < n_harness + 1 and k < 5 * n_harness:
         k += 1
